@@ -236,7 +236,10 @@ PROPERTIES = {
         units=['limits', 'enum_limits'],
         canaries=['limits'],
         scope='THE LIMITER\'S OWN CODE UNDER EVERY SCHEDULE OF A BOUNDED SIZE; tokio\'s semaphore is a model. Proved (Verus, unit limits): every service built by one InflightLimitLayer shares the layer\'s one per-peer table, '
-              'with the layer\'s maximum and wait mode, around exactly the given service; the constructors keep maximum and mode. BOUNDED (unit enum_limits): the real `call` (its async block, boxed as it is), the real '
+              'with the layer\'s maximum and wait mode, around exactly the given service; the constructors keep maximum and mode; and the async block of `call` (lifted, tokio\'s Semaphore and DashMap as assumed contracts): '
+              'no identity -> InternalServerError without touching table or service; only the entry of the request\'s OWN peer is looked up or created, an existing semaphore is never replaced, a new one has the configured limit; at the moment '
+              'the wrapped service is called the request holds a permit of its own peer\'s semaphore; in ReturnError mode no permit -> TooManyRequests (semaphore closed -> InternalServerError) outside the service; the request is served once, unchanged. '
+              'HOW MANY permits a semaphore hands out and WHEN a slot comes back (drop order) are not in these contracts. BOUNDED (unit enum_limits): the real `call` (its async block, boxed as it is), the real '
               'constructors and `layer`, compiled natively against a model of tokio::sync::Semaphore and DashMap, driven by a hand scheduler: limit 1 or 2, Block or ReturnError, 3 requests from peer 1 / peer 2 / without identity '
               'through a service, its clone or a second service of the same layer, EVERY schedule of 6 (thorough: 7) actions out of {start, poll, let the wrapped service finish a request, drop a request}: never more than `limit` '
               'requests of a peer inside the wrapped service; below the limit a polled request gets in whatever other peers do; at the limit it waits (Block) or is refused with TooManyRequests without reaching the service '
@@ -267,7 +270,9 @@ PROPERTIES = {
         category='model_checking',   # the deciding part is the bounded enumeration of histories over the real async block
         units=['limits', 'enum_limits'],
         canaries=['limits'],
-        scope='THE GLUE AROUND governor, WHICH IS A MODEL. Proved (Verus, unit limits): every service built by one RateLimitLayer shares the layer\'s one keyed limiter and wait mode. BOUNDED (unit enum_limits): the real '
+        scope='THE GLUE AROUND governor, WHICH IS A MODEL. Proved (Verus, unit limits): every service built by one RateLimitLayer shares the layer\'s one keyed limiter and wait mode; and the async block of `call` (lifted, governor as an assumed contract: a ghost log of the keys it granted a cell to): '
+              'no identity -> InternalServerError, neither limiter nor service reached; the wrapped service is reached only by a request for which the limiter granted exactly one cell under the key of the request\'s OWN peer (full PeerId), once, unchanged; '
+              'a request the limiter does not admit never reaches the service and gets TooManyRequests with the wait-nanos header = decimal text of a positive number; Block mode never refuses. HOW MANY cells governor grants in a window is not in these contracts. BOUNDED (unit enum_limits): the real '
               '`call` of RateLimit (its async block, boxed) and the real constructors on a model of governor 0.6 (keyed GCRA) over a virtual clock: quota burst 1 or 2 per 10 time units, Block or ReturnError, every history of 4 '
               'requests from peer 1 / peer 2 / without identity arriving 0 / 4 / 10 / 25 units apart through a service, its clone or a sibling: admissions of one peer within any window never exceed burst + window / period '
               '(checked on the admission times); over quota a request gets TooManyRequests with a positive integer wait-nanos header and never reaches the service (ReturnError) or waits outside the service and gets in '
